@@ -203,8 +203,54 @@ def check(ctx, cv, sel, case, tag):
     ctx.count('map_calls', 3 * K + 6 * n + 3 * nsub + 3 * nch)
 
 
+def spot_check_huge(ctx, rng):
+    """A recording with > 100 000 cycles: the look-ups are spot-checked at high indices (a full check is quadratic)."""
+    from emd import _cycles_support as CS
+    from emd import cycles as C
+    K = int(rng.integers(110000, 130000))
+    cv = np.repeat(np.arange(K), 2)
+    sel = rng.random(K) < .6
+    sv, chv, chains = reference(cv, sel)
+    case = {'kind': 'huge', 'ncycles': K, 'seed_note': 'cycle vector = every label twice; random 60% selection'}
+    ctx.case(digest('huge', K), True)
+    ctx.count('very_large_structures')
+    if not np.array_equal(np.asarray(C.get_subset_vector(sel.copy())), sv) or not np.array_equal(np.asarray(C.get_chain_vector(sv.copy())), chv):
+        ctx.violation('subset-or-chain-vector:huge', 'subset / chain vector wrong for %d cycles' % K, case)
+        return
+    hi_c = [int(v) for v in rng.integers(100000, K, 6)] + [99999, 100000, 100001, K - 1]
+    for c in hi_c:
+        got = np.asarray(CS.map_cycle_to_samples(cv, c)).reshape(-1)
+        if got.tolist() != [2 * c, 2 * c + 1]:
+            ctx.violation('map_cycle_to_samples:huge', 'map_cycle_to_samples(cycle %d of %d) returned %d samples, the cycle has 2' % (c, K, len(got)), case)
+            return
+    nsub, nch = int(sel.sum()), len(chains)
+    for s in [int(v) for v in rng.integers(max(nsub - 5000, 0), nsub, 5)] + [nsub - 1]:
+        got = np.asarray(CS.map_subset_to_cycle(sv, s)).reshape(-1)
+        if got.tolist() != [int(np.where(sel)[0][s])]:
+            ctx.violation('map_subset_to_cycle:huge', 'map_subset_to_cycle(%d of %d) returned %s' % (s, nsub, got.tolist()[:5]), case)
+            return
+    for ci in [int(v) for v in rng.integers(max(nch - 3000, 0), nch, 5)] + [nch - 1]:
+        got = np.asarray(CS.map_chain_to_subset(chv, ci)).reshape(-1)
+        if got.tolist() != [int(sv[c]) for c in chains[ci]]:
+            ctx.violation('map_chain_to_subset:huge', 'map_chain_to_subset(%d of %d) wrong' % (ci, nch), case)
+            return
+        got = np.asarray(CS.map_chain_to_cycle(chv, sv, ci)).reshape(-1)
+        if got.tolist() != chains[ci]:
+            ctx.violation('map_chain_to_cycle:huge', 'map_chain_to_cycle(%d of %d) wrong' % (ci, nch), case)
+            return
+
+
 def run_shard(ctx):
     rng = ctx.rng
+    if ctx.shard % 8 == 0:
+        spot_check_huge(ctx, rng)
+    if ctx.shard % 4 == 1:
+        # many chains (> 256): full check on one structure of about a thousand cycles
+        K = int(rng.integers(1000, 1400))
+        cv = gens.label_vector(rng, ncycles=K, gaps=True)
+        sel = rng.random(K) < .5
+        ctx.count('structures_with_many_chains')
+        check(ctx, cv, sel, {'kind': 'maps', 'cycle_vect': cv, 'selection': sel}, 'random')
     n = NRANDOM[ctx.tier] // ctx.nshards
     for i in range(n):
         if ctx.out_of_time():
@@ -267,4 +313,7 @@ def finalize(agg, tier):
 
 
 def replay(ctx, case):
+    if case.get('kind') == 'huge':
+        spot_check_huge(ctx, np.random.default_rng(0))
+        return
     check(ctx, np.asarray(case['cycle_vect'], int), np.asarray(case['selection'], bool), case, 'replay')
